@@ -10,7 +10,8 @@ MC          : ConfiguredPkg_MC — every history (requests on one or two flags i
 spec -> code: ConfiguredPkg_Sim (TLC -simulate) chooses histories and the attributes to read after every
               step; they are executed on a real PackageWrapper around a real ebuild_src package whose raw
               attributes are of the form `f? ( x ) !f? ( y )` (the view reveals the USE set it was computed
-              under) plus any-of / exactly-one-of groups.
+              under) plus any-of / exactly-one-of groups, and dependencies whose atoms carry transitive USE
+              deps with and without USE defaults (`[f?]`, `[!f=]`, `[f(+)?]`; judged structurally).
 code -> spec: seeded random histories over random universes (3-5 flags, locked flags, random raw
               attributes, random initial USE), reads interleaved at every step.
 Every step is judged by ConfiguredPkg_Trace: each read against the raw attribute evaluated under the USE
@@ -27,10 +28,14 @@ from pylib.common import rng, use_repo
 
 from drivers.c09_depset import Api, Uri, lex
 
-ATTRS = ["depend", "rdepend", "license", "restrict", "required_use", "fetchables"]
+ATTRS = ["depend", "rdepend", "license", "restrict", "required_use", "fetchables", "bdepend", "pdepend"]
+# attributes whose atoms carry transitive USE deps (`[f?]`, `[!f=]`, `[f(+)?]` ...): the DepSet spec does not
+# give those atoms a meaning, so their views are judged structurally only (View_stale), not by View_meaning
+OPAQUE = ["bdepend", "pdepend"]
 FLAVOUR = dict(depend="dep", rdepend="dep", license="license", restrict="restrict", required_use="required_use",
                fetchables="src_uri")
-KEY = dict(depend="DEPEND", rdepend="RDEPEND", license="LICENSE", restrict="RESTRICT", required_use="REQUIRED_USE")
+KEY = dict(depend="DEPEND", rdepend="RDEPEND", license="LICENSE", restrict="RESTRICT", required_use="REQUIRED_USE",
+           bdepend="BDEPEND", pdepend="PDEPEND")
 
 MC_UNI = dict(
     flags=["a", "b", "c"], locked=["c"],
@@ -41,6 +46,8 @@ MC_UNI = dict(
         restrict="a? ( test ) !b? ( mirror ) c? ( !a? ( strip ) ) fetch",
         required_use="a? ( b ) !b? ( !c ) ^^ ( a? ( x ) y c? ( z ) )",
         fetchables="a? ( http://e/a.tgz -> a-1.tgz ) !a? ( http://e/na.tgz ) b? ( c? ( http://e/bc.patch ) ) http://e/z.tar",
+        bdepend="cat/ta[a(+)?] cat/tb[!b(-)?] cat/tc[c(+)=] cat/plain",
+        pdepend="cat/ua[a?] cat/ub[!b=] c? ( cat/uc[a(-)?,b] ) || ( cat/ud[b(+)=] cat/ue )",
     ),
 )
 
@@ -63,7 +70,8 @@ class World:
         self.pkg = None
 
     def header(self):
-        return dict(tid=-1, i=0, ev="universe", flags=self.uni["flags"], locked=self.uni["locked"], attrs=ATTRS, raw=self.raw_ast)
+        return dict(tid=-1, i=0, ev="universe", flags=self.uni["flags"], locked=self.uni["locked"], attrs=ATTRS, opaque=OPAQUE,
+                    raw=self.raw_ast)
 
     def state(self):
         lcs = self.pkg.use
@@ -188,6 +196,10 @@ def random_universe(r_, maxflags=5):
         restrict=reveal(lambda f: f"r{f}", lambda f: f"rn{f}") + " " + extra(["test", "mirror", "strip", "fetch"], False),
         required_use=reveal(lambda f: f"x{f}", lambda f: f"!x{f}") + " " + extra(["p", "!q", "r", "s"], True)
         + f" ^^ ( {flags[0]}? ( u ) v w )",
+        bdepend=" ".join(f"cat/t{f}[{r_.choice(['', '!'])}{f}{r_.choice(['(+)', '(-)', ''])}{r_.choice('?=')}]"
+                         for f in flags if r_.random() < 0.8) + " cat/plain",
+        pdepend=" ".join(f"cat/u{f}[{r_.choice(['', '!'])}{f}{r_.choice(['(+)', '(-)', ''])}{r_.choice('?=')}]"
+                         for f in flags if r_.random() < 0.6) + " " + extra(["cat/p[" + flags[0] + "(+)?]", "cat/q", "cat/r", "cat/s"], True),
         fetchables=reveal(lambda f: f"http://e/{f}.tgz -> {f}-1.tgz", lambda f: f"http://e/n{f}.tgz") + " "
         + extra(["http://e/p", "q.patch", "r", "s"], False),
     )
@@ -243,7 +255,7 @@ def run(ck):
     # 2. spec -> code
     D = ck.pick(8, 12)
     nsim = ck.pick(150, 1500)
-    sim_attrs = "{" + ", ".join(f'"{a}"' for a in ATTRS[:4]) + "}"
+    sim_attrs = "{" + ", ".join(f'"{a}"' for a in ("depend", "rdepend", "license", "bdepend")) + "}"
     from pylib.common import seed
     sim = tlc.run("ConfiguredPkg_Sim", cfg_text=f"SPECIFICATION SimSpec\nCONSTANTS\n  SimFlags = {{\"a\", \"b\", \"c\"}}\n  "
                   f"Locked = {{\"c\"}}\n  Attrs = {sim_attrs}\n  D = {D}\nINVARIANT Emit\n",
